@@ -112,6 +112,8 @@ def property_checks(inp):
     out = []
     A = out.append
     h, p, w, L = numpy.array(inp["h"]), numpy.array(inp["p"]), numpy.array(inp["w"]), inp["L"]
+    if inp.get("h_int") and numpy.all(h == numpy.round(h)):
+        h = h.astype(int)          # heights given as integers (metres): a legal profile
     with warnings.catch_warnings():
         warnings.simplefilter("ignore")
         nb, counts, dropped = slab_info(h, L)
@@ -134,7 +136,10 @@ def property_checks(inp):
                 A(("OG conserves the total Cn2", abs(float(numpy.sum(cg) / p.sum() - 1)), 1e-12))
                 A(("OG heights are input heights in increasing order", 0.0 if (all(x in set(h.tolist()) for x in hg) and (numpy.diff(hg) > 0).all()) else 1.0, 0.0))
                 eq = numpy.linspace(0, len(p), Lg + 1, dtype=int)[1:-1]
-                c_eq = pc._G(pc._convert_splits_to_groups(eq, len(p)), h, p) if len(eq) else None
+                def _cost(groups_):      # independent of the library's cost functions
+                    return sum(min(float((p[g] * numpy.abs(h[g].astype(float) - float(h[c]))).sum()) for c in g) for g in groups_)
+                bounds = [0] + [int(e) + 1 for e in eq] + [len(p)]
+                c_eq = _cost([numpy.arange(bounds[q], bounds[q + 1]) for q in range(len(bounds) - 1)]) if len(eq) else None
                 # cost of the returned solution = sum_k p_k |h_k - h_group(k)| over the contiguous grouping it represents:
                 # recovered as the best contiguous assignment to the returned heights
                 idx = numpy.searchsorted(numpy.cumsum([0] + [0]), 0)
@@ -154,7 +159,7 @@ def property_checks(inp):
             hs, ps = h / 10000., p / 100e-15
             m0 = numpy.array([(ps * hs ** k).sum() for k in range(2 * L - 1)])
             m1 = numpy.array([((cm / 100e-15) * (hm / 10000.) ** k).sum() for k in range(2 * L - 1)])
-            A(("GCTM reproduces the first 2L-1 moments to optimiser accuracy", float(numpy.max(numpy.abs(m1 / m0 - 1))), 0.2))
+            A(("GCTM reproduces the first 2L-1 moments to optimiser accuracy", float(numpy.max(numpy.abs(m1 / m0 - 1))), 0.15))
     return out
 
 
@@ -181,6 +186,18 @@ def falsify(ctx, deep=False):
     viols, worst = [], {}
     for i in range(n + (300 if deep else 0)):
         inp = gen_input(rng, og_hard=(i >= n))
+        if i < n and i % 5 == 0:
+            inp["h_int"] = True
+        if i == 3:
+            # heights in whole metres given as an integer array
+            N = 24
+            inp.update({"kind": "int-heights", "h": (numpy.arange(N) * 250).tolist(), "h_int": True, "p": (rng.nprng().uniform(0.05, 1.0, size=N) * 1e-13).tolist(),
+                        "w": [10.0] * N, "L": 4, "og": True, "Lg": 4, "R": 3, "gctm": False})
+        if i in (1, 2):
+            # moment-conserving method on a profile whose lowest layer is not at height 0 (heights above sea level)
+            N = 12 + 3 * i
+            inp.update({"kind": "gctm-offset", "h": (2396.0 + numpy.arange(N) * (700.0 + 150.0 * i)).tolist(), "p": (rng.nprng().uniform(0.05, 1.0, size=N) * 1e-13).tolist(),
+                        "w": [10.0] * N, "L": 2 + i, "og": False, "gctm": True})
         try:
             res = property_checks(inp)
         except Exception as ex:
